@@ -134,7 +134,8 @@ fn small_fv(t: &ATerm) -> bool {
 }
 
 pub fn gen_history(rng: &mut Rng) -> (Vec<Op>, &'static str) {
-    let stream = match rng.below(15) {
+    let stream = match rng.below(16) {
+        15 => "latered",
         0..=2 => "mixed",
         3 => "symmetry",
         4 => "redundancy",
@@ -145,6 +146,24 @@ pub fn gen_history(rng: &mut Rng) -> (Vec<Op>, &'static str) {
         12 => "upmerge",
         _ => "deepsym",
     };
+    if stream == "latered" {
+        // Query after every union, as in the other streams
+        let mut ops = Vec::new();
+        for o in gen_late_redundancy(rng) {
+            let is_union = matches!(o, Op::Union(..));
+            let is_query = matches!(o, Op::Query);
+            if !is_query {
+                if is_union && !matches!(ops.last(), Some(Op::Query)) {
+                    ops.push(Op::Query);
+                }
+                ops.push(o);
+                if is_union {
+                    ops.push(Op::Query);
+                }
+            }
+        }
+        return (ops, stream);
+    }
     if stream == "inherit" || stream == "symred" || stream == "deepsym" || stream == "upmerge" {
         return (gen_structured(rng, stream), stream);
     }
@@ -513,6 +532,48 @@ fn gen_structured(rng: &mut Rng, stream: &str) -> Vec<Op> {
     }
     ops
 }
+
+/// late-redundancy stream: parents (sibling and binder form) mention a slot of their child class elsewhere; the child class
+/// is merged with another class first, and only afterwards that slot turns out to be redundant
+pub fn gen_late_redundancy(rng: &mut Rng) -> Vec<Op> {
+    use crate::terms::CField as F;
+    let leaf = |v: usize, sl: &[u32]| ATerm { v, fields: sl.iter().map(|s| F::Slot(*s)).collect(), children: vec![] };
+    let var = |c: u32| leaf(2, &[c]);
+    let bin = |v: usize, a: ATerm, b: ATerm| ATerm { v, fields: vec![F::App, F::App], children: vec![a, b] };
+    let bind = |v: usize, x: u32, a: ATerm| ATerm { v, fields: vec![F::Bind(x, Box::new(F::App))], children: vec![a] };
+    let (x, y, z) = (4u32, 8u32, 2u32);
+    let (av, bv) = if rng.chance(1, 2) { (7usize, 11usize) } else { (11usize, 7usize) };
+    let a = leaf(av, &[x, y]);
+    let b = leaf(bv, &[x, y]);
+    let parent = |rng: &mut Rng, c: ATerm| -> ATerm {
+        match rng.below(3) {
+            0 => bin(14, c, var(y)),
+            1 => bin(4, var(y), c),
+            _ => bind(0, BINDERS[0], rename_free(&c, &|s| if s == y { BINDERS[0] } else { s })),
+        }
+    };
+    let mut terms: Vec<ATerm> = vec![a.clone(), b.clone()];
+    terms.push(parent(rng, a.clone()));
+    terms.push(parent(rng, b.clone()));
+    if rng.chance(1, 2) {
+        terms.push(parent(rng, a.clone()));
+    }
+    // the copy that makes y redundant, of either class
+    let red_of_b = rng.chance(1, 2);
+    let copy = if red_of_b { leaf(bv, &[x, z]) } else { leaf(av, &[x, z]) };
+    terms.push(copy);
+    let n = terms.len();
+    let mut ops: Vec<Op> = terms.into_iter().map(Op::Add).collect();
+    if rng.chance(1, 2) {
+        ops.push(Op::Union(0, 1));
+    } else {
+        ops.push(Op::Union(1, 0));
+    }
+    ops.push(Op::Union(if red_of_b { 1 } else { 0 }, n - 1));
+    ops.push(Op::Query);
+    ops
+}
+
 
 pub fn exec_ops(ops: Vec<Op>, stream: &str, check_each: bool) -> Case {
     let line = format!("eg {};{}", "main", enc_ops(&ops));
